@@ -3,6 +3,23 @@ use crate::{object::Key, Array, NumberBuf, Object, String, Value};
 use decoded_char::DecodedChar;
 use locspan::Meta;
 
+/// Disposes of a value without recursion.
+///
+/// The drop glue of `Value` recurses once per nesting level, which overflows
+/// the stack on deeply nested values. The parser uses this function to
+/// release the values it has already built when it gives up on an error, so
+/// that rejecting a document takes no more stack than accepting it.
+fn dispose(value: Value) {
+	let mut pending = vec![value];
+	while let Some(value) = pending.pop() {
+		match value {
+			Value::Array(a) => pending.extend(a),
+			Value::Object(o) => pending.extend(o.into_iter().map(|e| e.value)),
+			_ => (),
+		}
+	}
+}
+
 /// Value fragment.
 #[derive(Clone, PartialEq, Eq, PartialOrd, Ord, Hash, Debug)]
 pub enum Fragment {
@@ -84,8 +101,38 @@ impl Parse for Value {
 			ObjectEntry(Meta<Object, usize>, Meta<Key, usize>),
 		}
 
-		let mut stack: Vec<StackItem> = vec![];
-		let mut value: Option<Meta<Value, usize>> = None;
+		/// Containers being built and the last completed value.
+		///
+		/// On an error these are released iteratively (see `dispose`).
+		struct Pending {
+			stack: Vec<StackItem>,
+			value: Option<Meta<Value, usize>>,
+		}
+
+		impl Drop for Pending {
+			fn drop(&mut self) {
+				for item in self.stack.drain(..) {
+					match item {
+						StackItem::Array(Meta(a, _)) | StackItem::ArrayItem(Meta(a, _)) => {
+							a.into_iter().for_each(dispose)
+						}
+						StackItem::Object(Meta(o, _)) | StackItem::ObjectEntry(Meta(o, _), _) => {
+							o.into_iter().for_each(|e| dispose(e.value))
+						}
+					}
+				}
+
+				if let Some(Meta(value, _)) = self.value.take() {
+					dispose(value)
+				}
+			}
+		}
+
+		let mut pending = Pending {
+			stack: vec![],
+			value: None,
+		};
+		let Pending { stack, value } = &mut pending;
 
 		fn stack_context(stack: &[StackItem], root: Context) -> Context {
 			match stack.last() {
@@ -96,18 +143,40 @@ impl Parse for Value {
 			}
 		}
 
+		// Evaluates a fallible parsing step. On error, the container that was
+		// popped from the stack is given back so that it is released
+		// iteratively with the rest of the pending state.
+		macro_rules! or_give_back {
+			($step:expr, $item:expr) => {
+				match $step {
+					Ok(v) => v,
+					Err(e) => {
+						stack.push($item);
+						return Err(e);
+					}
+				}
+			};
+		}
+
 		loop {
 			match stack.pop() {
 				None => match Fragment::value_or_parse(
 					value.take(),
 					parser,
-					stack_context(&stack, context),
+					stack_context(stack, context),
 				)? {
 					Meta(Fragment::Value(value), i) => {
-						parser.skip_whitespaces()?;
-						break match parser.next_char()? {
-							(p, Some(c)) => Err(Error::unexpected(p, Some(c))),
-							(_, None) => Ok(Meta(value, i)),
+						let next = parser.skip_whitespaces().and_then(|()| parser.next_char());
+						break match next {
+							Ok((_, None)) => Ok(Meta(value, i)),
+							Ok((p, Some(c))) => {
+								dispose(value);
+								Err(Error::unexpected(p, Some(c)))
+							}
+							Err(e) => {
+								dispose(value);
+								Err(e)
+							}
 						};
 					}
 					Meta(Fragment::BeginArray, i) => {
@@ -118,15 +187,21 @@ impl Parse for Value {
 					}
 				},
 				Some(StackItem::Array(Meta(array, i))) => {
-					match array::ContinueFragment::parse_in(parser, i)? {
+					match or_give_back!(
+						array::ContinueFragment::parse_in(parser, i),
+						StackItem::Array(Meta(array, i))
+					) {
 						array::ContinueFragment::Item => {
 							stack.push(StackItem::ArrayItem(Meta(array, i)))
 						}
-						array::ContinueFragment::End => value = Some(Meta(Value::Array(array), i)),
+						array::ContinueFragment::End => *value = Some(Meta(Value::Array(array), i)),
 					}
 				}
 				Some(StackItem::ArrayItem(Meta(mut array, i))) => {
-					match Fragment::value_or_parse(value.take(), parser, Context::Array)? {
+					match or_give_back!(
+						Fragment::value_or_parse(value.take(), parser, Context::Array),
+						StackItem::ArrayItem(Meta(array, i))
+					) {
 						Meta(Fragment::Value(value), _) => {
 							array.push(value);
 							stack.push(StackItem::Array(Meta(array, i)));
@@ -142,17 +217,23 @@ impl Parse for Value {
 					}
 				}
 				Some(StackItem::Object(Meta(object, i))) => {
-					match object::ContinueFragment::parse_in(parser, i)? {
+					match or_give_back!(
+						object::ContinueFragment::parse_in(parser, i),
+						StackItem::Object(Meta(object, i))
+					) {
 						object::ContinueFragment::Entry(key) => {
 							stack.push(StackItem::ObjectEntry(Meta(object, i), key))
 						}
 						object::ContinueFragment::End => {
-							value = Some(Meta(Value::Object(object), i))
+							*value = Some(Meta(Value::Object(object), i))
 						}
 					}
 				}
 				Some(StackItem::ObjectEntry(Meta(mut object, i), Meta(key, e))) => {
-					match Fragment::value_or_parse(value.take(), parser, Context::ObjectValue)? {
+					match or_give_back!(
+						Fragment::value_or_parse(value.take(), parser, Context::ObjectValue),
+						StackItem::ObjectEntry(Meta(object, i), Meta(key, e))
+					) {
 						Meta(Fragment::Value(value), _) => {
 							parser.end_fragment(e);
 							object.push(key, value);
